@@ -295,6 +295,34 @@ func c19Random(w *core.W, j int) {
 		}
 	}
 	w.Count("pairs", len(names)*len(names))
+	r := g.R
+	// names over octets whose 0x20-partner is not a letter either ( @` [{ \| ]} ^~ _DEL and control
+	// octets against 0x20..0x3F): a name and its partner-wise image share only the labels that are
+	// free of such octets
+	punct := []byte{'@', '`', '[', '{', '\\', '|', ']', '}', '^', '~', '_', 0x7f, 0x01, '!', 'a', 'Q', '5'}
+	for k := 0; k < 60; k++ {
+		var n model.Name
+		for l := 1 + r.IntN(4); l > 0; l-- {
+			lab := make([]byte, 1+r.IntN(4))
+			for i := range lab {
+				lab[i] = punct[r.IntN(len(punct))]
+			}
+			n = append(n, lab)
+		}
+		img := n.Clone()
+		for _, lab := range img {
+			for i, c := range lab {
+				if !(c >= 'a' && c <= 'z' || c >= 'A' && c <= 'Z') && r.IntN(2) == 0 {
+					lab[i] = c ^ 0x20
+				}
+			}
+		}
+		if img.Valid() && n.Valid() {
+			c19Pair(w, n, img, "0x20-partner")
+			c19Pair(w, img, n, "0x20-partner")
+			w.Count("partner_pairs", 1)
+		}
+	}
 	for k := 0; k < 40; k++ {
 		c19Origin(w, names[g.R.IntN(len(names))], names[g.R.IntN(len(names))])
 	}
